@@ -50,6 +50,8 @@ func verifMcacheFree(buf []byte) {
 	verifAssert(verifBlockOff(buf) == 0 && verifBlockCap(buf) == size, "C03/free-of-interior-slice")
 	verifAssert(verifGhostGet("pool.freed", id) == 0, "C03/double-free")
 	verifAssert(verifGhostGet("lease", id) == 0, "C02/free-while-leased")
+	verifAssert(verifGhostGet("hold", id) == 0, "C02/free-while-slice-reader-shares-block")
+	verifAssert(verifGhostGet("hold", id) == 0 && verifGhostGet("lease", id) == 0, "C03/free-before-every-reader-released")
 	verifGhostSet("pool.freed", id, 1)
 	verifLedgerFrees++
 }
